@@ -218,6 +218,14 @@ def check_C01(tier, seed):
         simulate=1500 if quick else 20000, depth=14 if quick else 22)
     progs += run.export("GenQuery", "G1-leaves", "PROG", constants=dict(G="G12", NV=1, LeafLimit=70, MaxLeaves=1, MaxNot=1,
                                                                         NeedNot=False), count=False)
+    # conditions that mention no variable (a constant membership test), alone and combined with ordinary ones
+    konst = run.export("GenQuery", "G1k", "PROG", constants=dict(G="G1k", NV=1, LeafLimit=9, MaxLeaves=2, MaxNot=1, NeedNot=False),
+                       count=False)
+    for p in (rng.sample(konst, min(len(konst), 400)) if quick else konst):
+        W = datasets.random_world(rng, rng.randint(2, 6))
+        dom = list(range(1, len(W["objs"]) + 1))
+        rng.shuffle(dom)
+        qc.add(W, [mk_query(p, [dom])], [drain_ev(), drain_ev(1, eqto=1)], tag="constant-condition")
     cov = datasets.covering_world(9)
     for p in progs:
         dom = list(range(1, 10))
@@ -959,6 +967,13 @@ def check_C05(tier, seed, extra_programs=None):
             W, doms = _world_and_doms(rng, nv, quick)
             q = mk_query(p, doms, declare="random")
             qc.add(W, [q, copy.deepcopy(q)], _c05_events(rng, b3=True))
+    # constant conditions (no variable at all) alone and combined with ordinary ones
+    konst = run.export("GenQuery", "G1k", "PROG", constants=dict(G="G1k", NV=1, LeafLimit=9, MaxLeaves=2, MaxNot=1, NeedNot=False),
+                       count=False)
+    for p in rng.sample(konst, min(len(konst), 300 if quick else 3000)):
+        W, doms = _world_and_doms(rng, 1, quick)
+        q = mk_query(p, doms)
+        qc.add(W, [q, copy.deepcopy(q)], _c05_events(rng))
     # the further grammars: for_all, sub-queries, flatten, concatenate (each re-evaluated under both configurations)
     for g, nvars, fix in (("G3", 2, None), ("G3y", 3, None), ("G6", 3, None), ("G7i", 1, _no_repeats), ("G7o", 1, _no_repeats), ("G7c", 2, None)):
         gp = run.export("GenQuery", f"{g}-bfs", "PROG", constants=dict(G=g, NV=2, LeafLimit=12 if quick else 40, MaxLeaves=2, MaxNot=1,
